@@ -28,10 +28,12 @@ EMPTY: FrozenSet[str] = frozenset()
 
 class Deps:
     def __init__(self, cfg: CFG, params: Iterable[str], out_param_calls: Optional[Set[str]] = None,
-                 control: bool = False):
+                 control: bool = False, named_locals: Optional[Set[str]] = None):
         """control=True adds control dependence: a value assigned under a branch also depends on the roots of
         the enclosing branch conditions (needed when a flag is set inside `if len(x) > 0:`)."""
         self.control = control
+        # locals that also count as roots of their own (e.g. an object returned by a call whose fields matter)
+        self.named_locals = named_locals or set()
         self.cfg = cfg
         self.params = list(params)
         self.out_param_calls = OUT_PARAM_CALLS if out_param_calls is None else out_param_calls
@@ -46,6 +48,8 @@ class Deps:
             return EMPTY
         if isinstance(expr, ast.Name):
             if expr.id in st:
+                if expr.id in self.named_locals:
+                    return st[expr.id] | {expr.id}
                 return st[expr.id]
             return frozenset({"g:" + expr.id})
         if isinstance(expr, ast.Attribute):
